@@ -205,12 +205,8 @@ int do_op (string line) {
   case "inp": obs[a]->doinput (v[b], v[c], (b + c) & 1); break;     // odd slot sum: get_char() (same bookkeeping, own code)
   case "err": boom (v[a], v[b], 3); break;
   case "reclaim":
-    // reclaim_objects() walks the variables of every object: destructed objects in an array, as key and as value of a
-    // mapping, inside a nested array and as bound argument of a function pointer are released and zeroed; so are
-    // the handles in `obs`
-    store = ({ obs[0], ([ obs[1] : ({ v[0] }), "k" : obs[2], 7 : ({ obs[3], v[1] }) ]), (: same, obs[0] :), ({ obs[1], ({ obs[2] }) }) });
+    // reclaim_objects() walks the variables of every object, this one included: `v` (the slots), then `obs` (the handles)
     a = reclaim_objects ();
-    store = 0;
     break;
   case "flush":
     // after an injected error: what an aborted group may legitimately have left behind
